@@ -155,8 +155,8 @@ fn entry_summary(data: &dbg::Dv) -> String {
         let e = &data.items[0].1;
         if e.head == "Loaded" && e.items.len() == 2 {
             let z = &e.items[0].1;
-            let name = z.field("apex").and_then(|a| a.field("name")).map(|n| n.head.clone());
-            let class = z.field("class").map(|c| c.head.clone());
+            let name = z.field("apex").and_then(|a| a.field("name")).map(|n| n.head);
+            let class = z.field("class").map(|c| c.head);
             let empty = z.field("apex").and_then(|a| a.field("children")).map(|c| c.items.is_empty()).unwrap_or(false);
             if let (Some(n), Some(c), true) = (name, class, empty) {
                 return format!("Loaded({n},{c},{})", e.items[1].1.canon());
